@@ -312,10 +312,14 @@ def sym_not(x):
 
 
 class SInt:
-    def __init__(self, e, lo, hi):
+    dom = None   # optional finite set of possible values (sparse domains): lets array stand-ins touch only those cells
+
+    def __init__(self, e, lo, hi, dom=None):
         self.e = e
         self.lo = lo
         self.hi = hi
+        if dom is not None:
+            self.dom = frozenset(dom)
 
     @staticmethod
     def mk(e, lo, hi):
@@ -344,7 +348,10 @@ class SInt:
             if isinstance(o, (SReal, float, F)):
                 return SReal.of(s) + o
             return NotImplemented
-        return SInt.mk(s.e + b[0], s.lo + b[1], s.hi + b[2])
+        r = SInt.mk(s.e + b[0], s.lo + b[1], s.hi + b[2])
+        if s.dom is not None and b[1] == b[2] and isinstance(r, SInt):
+            r.dom = frozenset(v + b[1] for v in s.dom)
+        return r
 
     __radd__ = __add__
 
@@ -470,6 +477,11 @@ class SInt:
     def concretize(s):
         """enumerate the value by solver decisions (forks)"""
         lo, hi = s.lo, s.hi
+        if s.dom is not None:
+            for v in sorted(s.dom):
+                if CTX.decide(s.e == v):
+                    return v
+            raise HarnessError('SInt domain does not contain its value')
         if hi - lo > 4096:
             raise ShimUnsupported('concretising an integer with a huge range')
         for v in range(lo, hi):
